@@ -254,6 +254,21 @@ def oracle(ctx, res):
                     if ok_ct:
                         viol("Encrypt/Decrypt raised on valid input", f"Decrypt of a {clen}-byte ciphertext refused by an instance declared {d}", inp)
                 res.evaluations += 1
+        # fresh randomness must not hang on the state of the process-wide, seedable `random` module: an application that seeds it
+        # (for its own reproducible shuffles, say) before each of two encryptions must still get two different ciphertexts
+        import random as _random
+        _st = _random.getstate()
+        try:
+            key = rb(rng, kl); m = rb(rng, 21)
+            _random.seed(20260930); c1 = ske.Encrypt(key, m)
+            _random.seed(20260930); c2 = ske.Encrypt(key, m)
+        finally:
+            _random.setstate(_st)
+        if c1 == c2:
+            viol("two encryptions of the same message are equal when `random` is re-seeded in between",
+                 "random.seed(x); Encrypt(k, m); random.seed(x); Encrypt(k, m) give the same ciphertext: the IV comes from the seedable global generator",
+                 {"key": key.hex(), "msg": m.hex(), "seed": 20260930})
+        res.evaluations += 1
         # fresh randomness over a long run on ONE instance: every IV (first 16 bytes) is used once
         ivs = {}
         key = rb(rng, kl); m = rb(rng, 5)
